@@ -113,10 +113,10 @@ Lemma code_ok_wf c : code_ok c = true -> wf_bytes c = true.
 Proof. unfold code_ok. intro H. apply andb_prop in H. apply H. Qed.
 
 (** every service call keeps the store well formed and touches only the transaction cache *)
-Lemma exec_good track h s o s' : good s -> cop_wf o = true -> exec track h s o = Ok s' ->
+Lemma exec_good track h s o s' : good s -> cop_wf o = true -> exec true track h s o = Ok s' ->
   good s' /\ same_block s s'.
 Proof.
-  intros G W E. destruct o as [a code|cur new code|cur|cur k v|cur k|a|a]; cbn [exec cop_wf] in *.
+  intros G W E. destruct o as [a code|cur new code|cur|cur k v|cur k|a|a|a]; cbn [exec cop_wf negb orb] in *.
   - apply andb_prop in W. destruct W as [Wa Wc].
     destruct (get_contract s a) as [[c|] [|]]; inversion E; subst; try (split; [exact G|apply same_block_refl]).
     split; [apply good_put; [exact G|reflexivity|apply is_addr_wf; exact Wa]|apply same_block_put].
@@ -136,6 +136,7 @@ Proof.
     apply good_delete; [exact G|reflexivity|]. rewrite wf_bytes_app, (is_addr_wf _ Wcur), Wk. reflexivity.
   - inversion E; subst. split; [apply set_destroyed_good; [exact G|apply is_addr_wf; exact W]|apply set_destroyed_block].
   - inversion E; subst. split; [apply unset_destroyed_good; [exact G|apply is_addr_wf; exact W]|apply unset_destroyed_block].
+  - destruct (context_ok s a); inversion E; subst. split; [exact G|apply same_block_refl].
 Qed.
 
 (** * prefix separation for addresses *)
@@ -179,10 +180,10 @@ Proof. intros Hs D. rewrite context_ok_glk by exact Hs. rewrite (dead_isS s D). 
 
 (** a destroyed address refuses every call that would deploy at it or write under it *)
 Lemma exec_dead_refuses track h s o : good s -> deadf (glk s) -> cop_touches a o = true ->
-  exec track h s o = Err Refused.
+  exec true track h s o = Err Refused.
 Proof.
   intros G D T. pose proof (good_sorted s G) as Hs.
-  destruct o as [b code|cur new code|cur|cur k v|cur k|b|b]; cbn [cop_touches] in T; try discriminate;
+  destruct o as [b code|cur new code|cur|cur k v|cur k|b|b|b]; cbn [cop_touches] in T; try discriminate;
     apply bytes_eqb_eq in T; subst; cbn [exec].
   - rewrite (dead_not_undeployed s Hs D). reflexivity.
   - rewrite (dead_not_context s Hs D). reflexivity.
@@ -208,10 +209,10 @@ Proof.
 Qed.
 
 Lemma exec_dead track h s o s' : good s -> cop_wf o = true -> cop_unsets a o = false ->
-  deadf (glk s) -> exec track h s o = Ok s' -> deadf (glk s').
+  deadf (glk s) -> exec true track h s o = Ok s' -> deadf (glk s').
 Proof.
   intros G W U D E. pose proof (good_sorted s G) as Hs. pose proof D as [D1 D2].
-  destruct o as [b code|cur new code|cur|cur k v|cur k|b|b]; cbn [exec cop_wf cop_unsets] in *.
+  destruct o as [b code|cur new code|cur|cur k v|cur k|b|b|b]; cbn [exec cop_wf cop_unsets negb orb] in *.
   - (* Create *)
     apply andb_prop in W. destruct W as [Wb Wc].
     destruct (get_contract s b) as [[c|] [|]]; inversion E; subst; try exact D.
@@ -271,13 +272,15 @@ Proof.
     + rewrite glk_unset_destroyed by exact Hs.
       destruct (key_eqb (DK a) (DK b)) eqn:K; [apply DK_eqb in K; congruence|]. rewrite andb_false_r. exact D1.
     + intros x Hx. rewrite glk_unset_destroyed by exact Hs. rewrite (under_not_DK x b Hx), andb_false_r. apply D2; exact Hx.
+  - (* APPCALL *)
+    destruct (context_ok s b); inversion E; subst. exact D.
 Qed.
 
 Lemma exec_orph track h s o s' : good s -> cop_wf o = true ->
-  orphf (glk s) -> exec track h s o = Ok s' -> orphf (glk s').
+  orphf (glk s) -> exec true track h s o = Ok s' -> orphf (glk s').
 Proof.
   intros G W O E. pose proof (good_sorted s G) as Hs.
-  destruct o as [b code|cur new code|cur|cur k v|cur k|b|b]; cbn [exec cop_wf] in *.
+  destruct o as [b code|cur new code|cur|cur k v|cur k|b|b|b]; cbn [exec cop_wf negb orb] in *.
   - (* Create *)
     apply andb_prop in W. destruct W as [Wb Wc].
     destruct (get_contract s b) as [[c|] [|]]; inversion E; subst; try exact O.
@@ -335,6 +338,8 @@ Proof.
   - (* RemoveDestroyed *)
     inversion E; subst. intros H x Hx. rewrite glk_unset_destroyed in * by exact Hs.
     rewrite CK_not_DK, andb_false_r in H. rewrite (under_not_DK x b Hx), andb_false_r. apply O; assumption.
+  - (* APPCALL *)
+    destruct (context_ok s b); inversion E; subst. exact O.
 Qed.
 
 End PerAddress.
